@@ -135,6 +135,8 @@ def fam_lifecycle():
                 [["unschedule", 1], ["schedule", 1, 1]]):
         out.append({"threads": {"app1": [["schedule", 1, 1], ["start"], ["await"], ["stop"], ["join"]]},
                     "emit": {"1": [1, 2], "2": [1]}, "scripts": {"1": {"1": ops}}})
+    # stop() by another thread that may win the race against schedule()/start(); the first thread never stops itself
+    out.append({"threads": {"app1": [["schedule", 1, 1], ["start"], ["join"]], "app2": [["stop"]]}, "emit": {"1": [1, 2]}})
     # stop before start, join after
     out.append({"threads": {"app1": [["schedule", 1, 1], ["stop"], ["start"], ["stop"], ["join"]]}, "emit": {"1": [1]}})
     out.append({"threads": {"app1": [["start"], ["schedule", 1, 1], ["unschedule", 1], ["schedule", 1, 1], ["stop"], ["stop"],
